@@ -150,6 +150,53 @@ CHECKS = {
         note="modelled not verified: zlib beyond the sync-flush law, compile/exec of module bodies, repr(str) outside printable ASCII without quote/backslash, text-mode newline translation in get_module_source, a blocking send being complete.",
         design="DESIGN.md §5 C18",
         technique="Coq proof (assembler loop on a buffered reader, induction over the module list and over read cuttings) + real-bootstrap correspondence"),
+
+    "C01": dict(
+        text=("Theorems over ALL sequences of micro-steps of the two event loops (accept, Proxy.callback / pre_select of any flow at either end, Mux flush/"
+              "dispatch, check_fullness, handler removal; any order; ANY outcome of every connect/recv/send/shutdown; any payloads, MAX_CHANNEL, buffer size) "
+              "(Props/C01.v): in every reachable state without stale delivery (an identifier re-used while frames of its previous holder were in flight — the "
+              "exemption C06 states) and for every flow, bytes handed to the destination are a prefix of bytes read from the application and vice versa; "
+              "while the receiving socket is not shut down, delivered ++ buffered far ++ payload in flight ++ buffered near = bytes read (nothing lost, duplicated, "
+              "reordered); a step of one flow changes nothing of another. Proved through a per-flow pipeline invariant (Stream_view.Vinv) preserved by every step "
+              "(Stream_flow.step_Ginv, ~3000 lines). The liveness sentence (eventual delivery under fairness) is NOT proved (kept as c01_eventual_delivery_full); the "
+              "harness checks delivery at quiescence on every generated schedule. Tied to /repo by running the REAL ssnet.runonce/Proxy/Mux/SockWrapper/MuxWrapper, "
+              "client.onaccept_tcp and server.main's new_channel on fake sockets, logging every micro-step with its socket outcomes, replaying the log on the extracted model and comparing the full state of both ends after every iteration."),
+        note="modelled not verified: kernel TCP sockets (outcomes are the environment's answers; send after shutdown fails with EPIPE), select readiness, the frame-level ssh link (its byte-level refinement is C07). Ghost flow numbers are model-only. Eventual delivery is unproved.",
+        design="DESIGN.md §5 C01",
+        technique="Coq proof (inductive pipeline invariant over all micro-step sequences, abstract view transition system + projection lemma) + micro-step-log differential correspondence"),
+    "C02": dict(
+        text=("6 theorems (Props/C02.v) on the same model and invariant as C01: if shutdown(SHUT_WR) was issued on the receiving socket and no socket call of that end failed, "
+              "every byte read at the sending end was delivered first and the sender stopped reading (both directions, every reachable state without stale delivery); no stream "
+              "payload follows a flow's EOF on the wire; the two directions are independent (half-close loses nothing); EOF/STOP are never echoed; a flow declared finished has both "
+              "sockets shut, both buffers empty and both mux flags set. F22 (data-less half-close before the remote connect completes) is refuted with a kernel-evaluated witness and "
+              "listed as a known finding, F20 (lingering handler) likewise observed on the real code. The quiescence sentence (no stuck state under a fair schedule) is NOT proved (c02_no_stuck_state_full)."),
+        note="as C01. Bounded tear-down work and no-stuck-state are checked only by the harness's quiescence oracle.",
+        design="DESIGN.md §5 C02",
+        technique="Coq proof (same inductive invariant; vi_clean / vi_dae clauses) + micro-step-log differential correspondence with close-order scenarios"),
+    "C06": dict(
+        text=("7 theorems (Props/C06.v): the allocator returns the FIRST free identifier on the cyclic walk, never 0, within 1..MAX_CHANNEL, and reports exhaustion only when the 1024 "
+              "successors are all occupied (any MAX_CHANNEL, any occupancy); in EVERY reachable state of the two-ended system — incl. wrap-around — open flows on each end own pairwise "
+              "distinct non-zero identifiers and the channel table holds exactly the open wrappers (registration invariant over all micro-step sequences); a message for an unregistered "
+              "identifier changes nothing; a message for a registered one touches only that flow. UDP/DNS identifiers share the allocator and are covered by C10/C11's model."),
+        note="as C01; the UDP/DNS closures registered in the same table are modelled in Model/Dgram.v (C10/C11), not in the stream model.",
+        design="DESIGN.md §5 C06",
+        technique="Coq proof (allocator lemmas by induction on the walk; registration invariant by induction over events) + micro-step-log correspondence with tiny identifier spaces"),
+    "C08": dict(
+        text=("6 theorems (Props/C08.v): a Proxy.callback never raises for any errno of recv/send/shutdown and any connect result among in-progress, connected and NET_ERRS+EACCES+EPERM; "
+              "a socket error shuts that socket both ways; a callback of flow g (faulty or not) changes no wrapper and no pipeline view of any other flow; identifier exhaustion drops only "
+              "the new connection; in every reachable state the dispatcher raises on no frame except through the CONNECT assertion or an unhandled connect errno (PARTIAL: that the "
+              "assertion never fires — the peer frees an identifier before seeing its re-use — is stated as c08_connect_assert_never_fires_full and not proved). UDP/DNS faults (F3, F4, F10, F16, all fixed) are C10/C11's theorems."),
+        note="as C01; process liveness beyond the modelled loops (signals, memory) is out of scope.",
+        design="DESIGN.md §5 C08",
+        technique="Coq proof (total step function with explicit Crash constructor; case analysis + registration/frame invariants) + fault-injection correspondence"),
+    "C09": dict(
+        text=("6 theorems (Props/C09.v): while an end waits for the acknowledgement no batch of callbacks/pre_selects of any flows queues a byte of stream payload, otherwise at most 2048 bytes "
+              "per callback (so one loop iteration overshoots by at most 2048 x callbacks; runonce issues <= 4 per connection); check_fullness queues exactly one PING and pauses; every PING "
+              "handled is answered regardless of the pause state; a PONG resumes and resets the budget; with latency control off no end is ever paused, in any run. "
+              "'Every request is eventually answered' (liveness) is not proved; the harness's quiescence oracle reports a stuck transfer."),
+        note="as C01. The per-connection constant relies on runonce calling a Proxy at most once per entry of its 4-element socks list (checked by the correspondence, not proved).",
+        design="DESIGN.md §5 C09",
+        technique="Coq proof (effect lemmas on the Mux queue, induction over event batches and runs) + correspondence with small buffer sizes"),
 }
 
 NOT_YET = {}
